@@ -18,3 +18,4 @@ def run(ctx: Ctx):
     sc.check_kind(ctx, "ttally", 4 if q else 5, max_paths=None if q else 80000)
     if q:
         sc.check_kind(ctx, "ttally", 5, max_paths=8000, label="Stats[ttally] histories <= 5 (sampled paths)")
+        sc.check_kind(ctx, "wtally", 5, vals=(1, 3), max_paths=4000, label="Stats[wtally] histories <= 5, values {1,3} (sampled paths + equal-epoch histories)")
